@@ -393,7 +393,7 @@ func genInterval(e *vh.Env, c cfgT) (b, en tmT, cls string) {
 	if e.Rnd.Intn(40) == 0 {
 		// seconds so large that ts*1000 itself wraps in int64
 		s := pick(e, 1, -1) * (9300000000000000 + e.Rnd.Int63n(1<<50))
-		return tmT{s, sub()}, tmT{s + int64(e.Rnd.Intn(3)), sub()}, "sec-wrap/huge"
+		return tmT{s, sub(), ""}, tmT{s + int64(e.Rnd.Intn(3)), sub(), ""}, "sec-wrap/huge"
 	}
 	off, oc := genOff(e, c)
 	bms := c.epoch + off
@@ -442,8 +442,9 @@ func generate(e *vh.Env) {
 	nFrom := e.Scale(8, 30)
 	nRange := e.Scale(4, 14)
 	nBetween := e.Scale(9, 30)
+	nFold := e.Scale(3, 10)
 	if focus != "" {
-		nIDs, nFrom, nRange, nBetween = nIDs*3, nFrom*3, nRange*3, nBetween*3
+		nIDs, nFrom, nRange, nBetween, nFold = nIDs*3, nFrom*3, nRange*3, nBetween*3, nFold*3
 	}
 	// fixed cases replayed first on every run: the witness of the repaired UnixNano defect (DESIGN section 7, fix 15)
 	// and the extreme ids of every layout
@@ -536,13 +537,26 @@ func generate(e *vh.Env) {
 		if want("range") {
 			for i := 0; i < nRange; i++ {
 				b, _, cls := genInterval(e, c)
+				b = anyZone(e, b)
 				emitRange(e, c, b, genProbes(e, c, b, b), strings.SplitN(cls, "/", 2)[0])
+			}
+			// the instant, not the wall clock: endpoints carried in zones with DST, inside folds and next to gaps
+			for i := 0; i < nFold; i++ {
+				if b, _, cls, ok := genFoldInterval(e, c); ok {
+					emitRange(e, c, b, genProbes(e, c, b, b), cls)
+				}
 			}
 		}
 		if want("between") {
 			for i := 0; i < nBetween; i++ {
 				b, en, cls := genInterval(e, c)
+				b, en = anyZone(e, b), anyZone(e, en)
 				emitBetween(e, c, b, en, genProbes(e, c, b, en), cls)
+			}
+			for i := 0; i < 2*nFold; i++ {
+				if b, en, cls, ok := genFoldInterval(e, c); ok {
+					emitBetween(e, c, b, en, genProbes(e, c, b, en), cls)
+				}
 			}
 		}
 	}
